@@ -1,5 +1,6 @@
 import PyrexVerif.Util.Proto
 import PyrexVerif.F.Ice
+import PyrexVerif.F.IceAtten
 set_option linter.unusedVariables false
 /-! Driver for C16 (ice models).  Requests (floats as bit patterns, `-` = Python `None`):
 `<op> n0 k a lo hi above below <args…>` with op ∈ index | gradient | depth | contains. -/
@@ -16,8 +17,62 @@ def parseIce : List String → Option (Ice × List String)
     pure (⟨n0, k, a, lo, hi, ab, be⟩, r)
   | _ => none
 
+/-- `atten <model> nz z… nf f…` → the matrix, row by row (also covers the row/column/scalar shapes) -/
+def handleAtten (model : String) (r : List String) : String :=
+  match r with
+  | nz :: r =>
+    match nz.toNat? with
+    | some nz =>
+      match floatsOfToks (r.take nz), (r.drop nz) with
+      | some zs, nf :: r2 =>
+        match nf.toNat?, floatsOfToks r2 with
+        | some nf, some fs =>
+          if fs.length != nf then "bad-op" else
+          let att : Option (Float → Float → Float) := match model with
+            | "antarctic" => some attenAntarctic
+            | "greenland" => some attenGreenland
+            | "arasim" => some attenArasim
+            | _ => none
+          match att with
+          | some att => joinFloats ((attenMatrix att zs fs).flatten)
+          | none => "bad-op"
+        | _, _ => "bad-op"
+      | _, _ => "bad-op"
+    | none => "bad-op"
+  | _ => "bad-op"
+
+def parsePairs : List Float → Option (List (Float × Float))
+  | [] => some []
+  | a :: b :: r => (parsePairs r).map ((a, b) :: ·)
+  | _ => none
+
 def handle (ts : List String) : String :=
   match ts with
+  | "atten" :: model :: r => handleAtten model r
+  | "defaults" :: _ =>
+      let o := fun (x : Option Float) => match x with | some v => tokOfFloat v | none => "-"
+      let ice := fun (I : Ice) => joinFloats [I.n0, I.k, I.a, I.lo, I.hi] ++ " " ++ o I.above ++ " " ++ o I.below
+      ice antarcticIce ++ " | " ++ ice greenlandIce
+  | "temp" :: model :: r =>
+      match floatsOfToks r with
+      | some zs => joinFloats (zs.map (if model == "greenland" then grn_tempC else ant_tempC))
+      | none => "bad-op"
+  | "uindex" :: n :: lo :: hi :: ab :: be :: r =>
+      match floatOfTok n, floatOfTok lo, floatOfTok hi, optOfTok ab, optOfTok be, floatsOfToks r with
+      | some n, some lo, some hi, some ab, some be, some zs =>
+          joinFloats (zs.map (UIce.index ⟨n, lo, hi, ab, be⟩))
+      | _, _, _, _, _, _ => "bad-op"
+  | "layer" :: nl :: r =>
+      match nl.toNat? with
+      | some nl =>
+        match floatsOfToks (r.take (2*nl)), floatsOfToks (r.drop (2*nl)) with
+        | some bs, some zs =>
+          match parsePairs bs with
+          | some ls => " ".intercalate (zs.map (fun z => match layerAt ls z with
+              | some i => toString i | none => "none"))
+          | none => "bad-op"
+        | _, _ => "bad-op"
+      | none => "bad-op"
   | op :: r =>
     match parseIce r with
     | some (I, args) =>
